@@ -58,8 +58,8 @@ struct ApiScope {
 };
 #define API(name, budget) sim::ApiScope _api_scope_(name, budget)
 static const u64 BUDGET_SMALL = 20000000ull;         // queries
-static const u64 BUDGET_LOAD = 4000000000ull;        // face construction
-static inline u64 budget_seg(size_t nchars) { return 400000000ull + 8000000ull * nchars; }
+static const u64 BUDGET_LOAD = 1500000000ull;        // face construction
+static inline u64 budget_seg(size_t nchars) { return 200000000ull + 4000000ull * nchars; }
 
 // ---------------------------------------------------------------- SimAlloc
 void alloc_install();
